@@ -305,6 +305,49 @@ theorem lstep_inv {s : LockSt} (h : LockInv s) (e : LEv) : LockInv (lstep s e) :
           · simp only [hq, if_false] at hx
             exact h.idle q x hx hst
       · simp only [hs, if_false]; exact h
+  | bindTimeout p =>
+    simp only [lstep]
+    by_cases hp : pcOf s p = some .start
+    · simp only [hp, if_true]
+      refine ⟨?_, ?_, ?_⟩
+      · intro q
+        simp only [pcOf, pcOf_setProc]
+        by_cases hq : q = p
+        · subst hq
+          simp only [if_true]
+          have := h.holder q
+          rw [hp] at this
+          cases hx : s.procs[q]? with
+          | none => simp; intro e; exact absurd (this.mpr e) (by simp)
+          | some x => simp; intro e; exact absurd (this.mpr e) (by simp)
+        · simp only [hq, if_false]
+          have := h.holder q
+          simp only [pcOf] at this
+          exact this
+      · intro q x hx hf
+        rw [getElem?_setProc] at hx
+        by_cases hq : q = p
+        · subst hq
+          simp only [if_true] at hx
+          cases hy : s.procs[q]? with
+          | none => simp [hy] at hx
+          | some y =>
+            simp [hy] at hx; subst hx
+            simp only [pcOf, hy, Option.map_some, Option.some.injEq] at hp
+            exact ⟨h.idle q y hy hp, rfl⟩
+        · simp only [hq, if_false] at hx
+          exact h.loser q x hx hf
+      · intro q x hx hs
+        rw [getElem?_setProc] at hx
+        by_cases hq : q = p
+        · subst hq
+          simp only [if_true] at hx
+          cases hy : s.procs[q]? with
+          | none => simp [hy] at hx
+          | some y => simp [hy] at hx; subst hx; cases hs
+        · simp only [hq, if_false] at hx
+          exact h.idle q x hx hs
+    · simp only [hp, if_false]; exact h
 
 theorem lrun_inv (n : Nat) (evs : List LEv) : LockInv (lrun n evs) := by
   unfold lrun
@@ -367,10 +410,45 @@ theorem c14_freed (n : Nat) (evs : List LEv) (p : Nat) (hp : pcOf (lrun n evs) p
     have := (inv2.holder q).mp hq
     simp [lstep, hp] at this
 
+/-- **C14 (a bind that timed out is not an acquisition).** Whoever holds or not, an invocation whose
+bind lost against its timer has exited with the lock error status without any effect, and the
+holder - if there is one - still holds. -/
+theorem c14_timeout (n : Nat) (evs : List LEv) (p : Nat)
+    (hp : pcOf (lrun n evs) p = some .start) :
+    let s' := lstep (lrun n evs) (.bindTimeout p)
+    s'.lock = (lrun n evs).lock ∧ pcOf s' p = some (.exited lockErrorRc) ∧
+    ∀ x, s'.procs[p]? = some x → x.effects = 0 := by
+  intro s'
+  have inv' : LockInv s' := lstep_inv (lrun_inv n evs) (.bindTimeout p)
+  have hs' : s' = ⟨setProc (lrun n evs).procs p
+      (fun x => { x with pc := .exited lockErrorRc, lockFailed := true }), (lrun n evs).lock⟩ := by
+    simp only [s', lstep, hp, if_true]
+  refine ⟨by rw [hs'], ?_, ?_⟩
+  · rw [hs']
+    simp only [pcOf, pcOf_setProc, if_true]
+    simp only [pcOf] at hp
+    cases hx : (lrun n evs).procs[p]? with
+    | none => simp [hx] at hp
+    | some x => simp
+  · intro x hx
+    have hf : x.lockFailed = true := by
+      rw [hs'] at hx
+      simp only [getElem?_setProc, if_true] at hx
+      cases hy : (lrun n evs).procs[p]? with
+      | none => simp [hy] at hx
+      | some y => simp [hy] at hx; subst hx; rfl
+    exact (inv'.loser p x hx hf).1
+
 /-! ## Non-vacuity: three contenders, the holder is killed, the next one acquires -/
 example :
     let s := lrun 4 [.tryAcquire 1, .effect 1, .tryAcquire 0, .tryAcquire 2, .effect 2, .kill 1, .tryAcquire 3]
     s.lock = some 3 ∧ (s.procs.map (·.pc)) = [.exited 2, .dead, .exited 2, .holding] ∧
     (s.procs.map (·.effects)) = [0, 1, 0, 0] := by decide
+
+/-- a holder, one contender refused, one whose bind timed out, one timing out while nobody holds -/
+example :
+    let s := lrun 4 [.tryAcquire 0, .effect 0, .tryAcquire 1, .bindTimeout 2, .finish 0 0, .bindTimeout 3]
+    s.lock = none ∧ (s.procs.map (·.pc)) = [.exited 0, .exited 2, .exited 2, .exited 2] ∧
+    (s.procs.map (·.effects)) = [1, 0, 0, 0] := by decide
 
 end Monorail
